@@ -24,6 +24,10 @@
    It is reference-count correct: it only drops references that exist and are not ours (HVar),
    and never mutates a tuple.
 
+   Tuples: an item borrowed from a tuple (PyTuple_GET_ITEM) is identified with the tuple itself by the
+   extractor (tuples are immutable, so the item lives exactly as long as the tuple is kept alive; the
+   extractor refuses any use of such an item other than passing it on).
+
    [D] is the static ownership discipline (an abstract interpretation of one path).
    Executable definitions only; the theorems are in Proofs/Own.v. *)
 From Coq Require Import List Arith Bool.
@@ -33,15 +37,10 @@ Definition var := nat.
 Definition slot := nat.
 Definition obj := nat.
 
-Inductive okind := KDict | KTuple | KOther.
-Definition okind_eqb (a b : okind) : bool :=
-  match a, b with KDict, KDict | KTuple, KTuple | KOther, KOther => true | _, _ => false end.
-
 Inductive ev :=
 | EFetchSlot (v : var) (s : slot)     (* v = self->slot                      (borrowed) *)
-| EFetchItemD (v d : var)             (* v = PyDict_GetItem(d, ..) hit       (borrowed, mutable container) *)
-| EFetchItemT (v d : var)             (* v = PyTuple_GET_ITEM(d, i)          (borrowed, immutable container) *)
-| ENewRef (v : var) (k : okind)       (* v = call returning a new reference (a fresh or an existing object) *)
+| EFetchItem (v d : var)              (* v = PyDict_GetItem(d, ..) hit       (borrowed from the container) *)
+| ENewRef (v : var)                   (* v = call returning a new reference (a fresh or an existing object) *)
 | EIncref (v : var)
 | EDecref (v : var)                   (* Py_DECREF / XDECREF / CLEAR of a local; may run a destructor *)
 | EMayCall                            (* arbitrary Python code runs *)
@@ -54,14 +53,13 @@ Inductive ev :=
 | ESwapSlot (s : slot) (v : var)      (* Py_XSETREF(self->slot, v) *)
 | EClearSlot (s : slot)               (* Py_CLEAR(self->slot) *)
 | EAssumeSlot (s : slot) (full : bool)(* branch condition self->slot != NULL / == NULL *)
-| ECall (f : nat) (args : list var) (ret : option (var * okind))
+| ECall (f : nat) (args : list var) (ret : option var)
                                       (* call of another function of the skeleton; replaced by its
                                          summary ([expand]) before anything else *)
 | EReturn (r : option var).           (* return; a returned pointer carries our reference to the caller *)
 
 Definition path := list ev.
-(* fn_tparams: the parameters the function applies PyTuple_GET_SIZE / GET_ITEM to (tuples by contract) *)
-Record fn := mkFn { fn_id : nat; fn_params : list var; fn_tparams : list var; fn_paths : list path }.
+Record fn := mkFn { fn_id : nat; fn_params : list var; fn_paths : list path }.
 
 (* ------------------------------------------------------------------ heap *)
 Inductive holder := HSlot (s : slot) | HItem (c : obj) | HExt | HVar (v : var) | HLeak.
@@ -82,7 +80,6 @@ Definition ref_eqb (a b : ref) : bool := holder_eqb (fst a) (fst b) && Nat.eqb (
 Record st := mkSt {
   refs : list ref;
   freed : list obj;
-  kinds : list (obj * okind);
   next : obj;                      (* every object mentioned anywhere is < next *)
   venv : list (var * obj)
 }.
@@ -92,9 +89,6 @@ Fixpoint mem (x : nat) (l : list nat) : bool :=
 
 Fixpoint lookup {A} (l : list (nat * A)) (k : nat) : option A :=
   match l with [] => None | (k', a) :: l' => if Nat.eqb k k' then Some a else lookup l' k end.
-
-Definition kind_of (s : st) (o : obj) : okind :=
-  match lookup (kinds s) o with Some k => k | None => KOther end.
 
 Definition has_ref (rs : list ref) (o : obj) : bool := existsb (fun p => Nat.eqb (snd p) o) rs.
 Definition has (rs : list ref) (r : ref) : bool := existsb (ref_eqb r) rs.
@@ -112,10 +106,10 @@ Definition slot_get (s : st) (sl : slot) : option obj :=
   | None => None
   end.
 
-Definition set_refs (s : st) (rs : list ref) : st := mkSt rs (freed s) (kinds s) (next s) (venv s).
+Definition set_refs (s : st) (rs : list ref) : st := mkSt rs (freed s) (next s) (venv s).
 Definition add_ref (s : st) (r : ref) : st := set_refs s (r :: refs s).
 Definition set_var (s : st) (v : var) (o : obj) : st :=
-  mkSt (refs s) (freed s) (kinds s) (next s) ((v, o) :: venv s).
+  mkSt (refs s) (freed s) (next s) ((v, o) :: venv s).
 
 (* the items of a freed container are handed to the environment *)
 Definition orphan (c : obj) (rs : list ref) : list ref :=
@@ -125,27 +119,25 @@ Definition orphan (c : obj) (rs : list ref) : list ref :=
 Definition release (s : st) (r : ref) : st :=
   let rs := remove1 r (refs s) in
   if has_ref rs (snd r) then set_refs s rs
-  else mkSt (orphan (snd r) rs) (snd r :: freed s) (kinds s) (next s) (venv s).
+  else mkSt (orphan (snd r) rs) (snd r :: freed s) (next s) (venv s).
 
-Definition alloc (s : st) (k : okind) (h : holder) : st * obj :=
+Definition alloc (s : st) (h : holder) : st * obj :=
   let o := next s in
-  (mkSt ((h, o) :: refs s) (freed s) ((o, k) :: kinds s) (S o) (venv s), o).
+  (mkSt ((h, o) :: refs s) (freed s) (S o) (venv s), o).
 
 (* ------------------------------------------------------------------ environment *)
 Inductive estep :=
-| XAlloc (k : okind) (items : list obj)  (* a new object held by the environment; items that are not live are skipped *)
+| XAlloc                                  (* a new object held by the environment *)
 | XIncExt (o : obj)
 | XDecExt (o : obj)
 | XClearSlot (s : slot)
 | XSetSlot (s : slot) (o : obj)
-| XAddItem (c o : obj)                    (* only on live non-tuples *)
-| XDelItem (c o : obj).                   (* only on non-tuples *)
+| XAddItem (c o : obj)
+| XDelItem (c o : obj).
 
 Definition env_step (s : st) (x : estep) : st :=
   match x with
-  | XAlloc k items =>
-      let '(s1, o) := alloc s k HExt in
-      fold_left (fun a i => if live a i && negb (Nat.eqb i o) then add_ref a (HItem o, i) else a) items s1
+  | XAlloc => fst (alloc s HExt)
   | XIncExt o => if live s o then add_ref s (HExt, o) else s
   | XDecExt o => if has (refs s) (HExt, o) then release s (HExt, o) else s
   | XClearSlot sl => match slot_get s sl with Some o => release s (HSlot sl, o) | None => s end
@@ -153,10 +145,8 @@ Definition env_step (s : st) (x : estep) : st :=
                      | Some _ => s
                      | None => if live s o then add_ref s (HSlot sl, o) else s
                      end
-  | XAddItem c o => if live s c && live s o && negb (okind_eqb (kind_of s c) KTuple)
-                    then add_ref s (HItem c, o) else s
-  | XDelItem c o => if has (refs s) (HItem c, o) && negb (okind_eqb (kind_of s c) KTuple)
-                    then release s (HItem c, o) else s
+  | XAddItem c o => if live s c && live s o then add_ref s (HItem c, o) else s
+  | XDelItem c o => if has (refs s) (HItem c, o) then release s (HItem c, o) else s
   end.
 
 Definition env_run (s : st) (xs : list estep) : st := fold_left env_step xs s.
@@ -207,17 +197,17 @@ Definition step (strict : bool) (orc : oracle) (s : st) (k : nat) (e : ev) : out
       | Some o => Running (set_var s v o) k
       | None => Fault (NullSlot sl)
       end
-  | EFetchItemD v d | EFetchItemT v d =>
+  | EFetchItem v d =>
       with_obj s d (fun c =>
         match nth_error (items_of s c) (o_pick orc k) with
         | Some o => Running (set_var s v o) (S k)
         | None => Infeasible
         end)
-  | ENewRef v kd =>
+  | ENewRef v =>
       let o := o_pick orc k in
-      if live s o && okind_eqb (kind_of s o) kd
+      if live s o
       then Running (set_var (add_ref s (HVar v, o)) v o) (S k)
-      else let '(s1, o1) := alloc s kd (HVar v) in Running (set_var s1 v o1) (S k)
+      else let '(s1, o1) := alloc s (HVar v) in Running (set_var s1 v o1) (S k)
   | EIncref v => with_obj s v (fun o => Running (add_ref s (HVar v, o)) k)
   | EDecref v =>
       match lookup (venv s) v with
@@ -327,12 +317,10 @@ Definition balanced (params : list var) (s : st) : bool :=
 Inductive vstat :=
 | SStale               (* unset, or a pointer that may dangle *)
 | SFresh               (* borrowed, nothing ran since it was fetched *)
-| SVia (w : var)       (* an item of the tuple w; good while we own w *)
 | SOwned (n : nat).    (* we hold n + 1 references through this variable *)
 
 Record dst := mkD {
   d_stat : list (var * vstat);
-  d_tups : list var;         (* variables known to point to a tuple we created *)
   d_empty : list slot;       (* slots known to be NULL since the last may-call point *)
   d_full : list slot         (* slots known to be non-NULL since the last may-call point *)
 }.
@@ -341,7 +329,7 @@ Definition stat (d : dst) (v : var) : vstat :=
   match lookup (d_stat d) v with Some x => x | None => SStale end.
 
 Definition set_stat (d : dst) (v : var) (x : vstat) : dst :=
-  mkD ((v, x) :: d_stat d) (d_tups d) (d_empty d) (d_full d).
+  mkD ((v, x) :: d_stat d) (d_empty d) (d_full d).
 
 Definition is_owned (x : vstat) : bool := match x with SOwned _ => true | _ => false end.
 
@@ -349,7 +337,6 @@ Definition is_owned (x : vstat) : bool := match x with SOwned _ => true | _ => f
 Definition valid (d : dst) (v : var) : bool :=
   match stat d v with
   | SFresh | SOwned _ => true
-  | SVia w => is_owned (stat d w)
   | SStale => false
   end.
 
@@ -358,26 +345,12 @@ Definition remove_nat (x : nat) (l : list nat) : list nat := filter (fun y => ne
 (* arbitrary code ran: borrowed pointers may dangle, slots may have been cleared or filled *)
 Definition invalidate (d : dst) : dst :=
   mkD (map (fun p => match snd p with SFresh => (fst p, SStale) | _ => p end) (d_stat d))
-      (d_tups d) [] [].
-
-(* we gave away our last reference through w: aliases of w are not protected any more *)
-Definition unvia (w : var) (d : dst) : dst :=
-  mkD (map (fun p => match snd p with
-                     | SVia u => if Nat.eqb u w then (fst p, SStale) else p
-                     | _ => p
-                     end) (d_stat d))
-      (d_tups d) (d_empty d) (d_full d).
-
-(* v is overwritten with a pointer of status x: it stops being a known tuple and aliases of the old
-   value are forgotten *)
-Definition reassign (d : dst) (v : var) (x : vstat) : dst :=
-  let d1 := unvia v d in
-  mkD ((v, x) :: d_stat d1) (remove_nat v (d_tups d1)) (d_empty d1) (d_full d1).
+      [] [].
 
 (* give up one reference held through v; [after] is the status when it was the last one *)
 Definition drop_one (d : dst) (v : var) (after : vstat) : option dst :=
   match stat d v with
-  | SOwned 0 => Some (set_stat (unvia v d) v after)
+  | SOwned 0 => Some (set_stat d v after)
   | SOwned (S n) => Some (set_stat d v (SOwned n))
   | _ => None
   end.
@@ -385,20 +358,11 @@ Definition drop_one (d : dst) (v : var) (after : vstat) : option dst :=
 Definition dstep (strict : bool) (d : dst) (e : ev) : option dst :=
   match e with
   | EFetchSlot v s =>
-      if negb (is_owned (stat d v)) && mem s (d_full d) then Some (reassign d v SFresh) else None
-  | EFetchItemD v c =>
-      if negb (is_owned (stat d v)) && valid d c then Some (reassign d v SFresh) else None
-  | EFetchItemT v c =>
-      if negb (is_owned (stat d v)) && valid d c && negb (Nat.eqb v c) then
-        Some (reassign d v (if mem c (d_tups d) && is_owned (stat d c) then SVia c else SFresh))
-      else None
-  | ENewRef v k =>
-      if negb (is_owned (stat d v)) then
-        let d1 := set_stat (unvia v d) v (SOwned 0) in
-        Some (mkD (d_stat d1)
-                  (match k with KTuple => v :: d_tups d1 | _ => remove_nat v (d_tups d1) end)
-                  (d_empty d1) (d_full d1))
-      else None
+      if negb (is_owned (stat d v)) && mem s (d_full d) then Some (set_stat d v SFresh) else None
+  | EFetchItem v c =>
+      if negb (is_owned (stat d v)) && valid d c then Some (set_stat d v SFresh) else None
+  | ENewRef v =>
+      if negb (is_owned (stat d v)) then Some (set_stat d v (SOwned 0)) else None
   | EIncref v =>
       if valid d v then
         Some (set_stat d v (match stat d v with SOwned n => SOwned (S n) | _ => SOwned 0 end))
@@ -411,14 +375,14 @@ Definition dstep (strict : bool) (d : dst) (e : ev) : option dst :=
   | EStealItem c v => if valid d c && negb (Nat.eqb c v) then drop_one d v SFresh else None
   | EStoreSlot s v =>
       if mem s (d_empty d) then
-        option_map (fun d1 => mkD (d_stat d1) (d_tups d1) (remove_nat s (d_empty d1)) (s :: d_full d1))
+        option_map (fun d1 => mkD (d_stat d1) (remove_nat s (d_empty d1)) (s :: d_full d1))
                    (drop_one d v SFresh)
       else None
   | ESwapSlot s v => option_map invalidate (drop_one d v SFresh)
   | EClearSlot s => Some (invalidate d)
   | EAssumeSlot s full =>
-      Some (if full then mkD (d_stat d) (d_tups d) (d_empty d) (s :: d_full d)
-            else mkD (d_stat d) (d_tups d) (s :: d_empty d) (d_full d))
+      Some (if full then mkD (d_stat d) (d_empty d) (s :: d_full d)
+            else mkD (d_stat d) (s :: d_empty d) (d_full d))
   | ECall _ _ _ => None
   | EReturn r =>
       match r with
@@ -436,11 +400,8 @@ Fixpoint drun (strict : bool) (d : dst) (p : path) : option dst :=
   | e :: p' => match dstep strict d e with Some d' => drun strict d' p' | None => None end
   end.
 
-Fixpoint dedup_vars (l : list var) : list var :=
-  match l with [] => [] | x :: l' => if mem x l' then dedup_vars l' else x :: dedup_vars l' end.
-
-Definition d_init (params tparams : list var) : dst :=
-  mkD (map (fun v => (v, SOwned 0)) params) tparams [] [].
+Definition d_init (params : list var) : dst :=
+  mkD (map (fun v => (v, SOwned 0)) params) [] [].
 
 Definition d_final (params : list var) (d : dst) : bool :=
   forallb (fun p => let v := fst p in
@@ -452,9 +413,9 @@ Definition d_final (params : list var) (d : dst) : bool :=
 Definition nodup_nat (l : list nat) : bool :=
   (fix go l := match l with [] => true | x :: l' => negb (mem x l') && go l' end) l.
 
-Definition D (strict : bool) (params tparams : list var) (p : path) : bool :=
+Definition D (strict : bool) (params : list var) (p : path) : bool :=
   nodup_nat params &&
-  match drun strict (d_init params tparams) p with
+  match drun strict (d_init params) p with
   | Some d => d_final params d
   | None => false
   end.
@@ -468,32 +429,27 @@ Definition expand_ev (e : ev) : list ev :=
   match e with
   | ECall _ args ret =>
       map EUse args ++ [EMayCall] ++ map EUse args ++
-      match ret with Some (v, k) => [ENewRef v k] | None => [] end
+      match ret with Some v => [ENewRef v] | None => [] end
   | _ => [e]
   end.
 Definition expand (p : path) : path := flat_map expand_ev p.
 
 Definition D_fn (strict : bool) (f : fn) : bool :=
-  forallb (fun p => D strict (fn_params f) (fn_tparams f) (expand p)) (fn_paths f).
+  forallb (fun p => D strict (fn_params f) (expand p)) (fn_paths f).
 
 (* which (function, path index) fail: diagnostics for the harness *)
 Definition D_failures (strict : bool) (fs : list fn) : list (nat * nat) :=
   flat_map (fun f => map (fun ip => (fn_id f, fst ip))
-                         (filter (fun ip => negb (D strict (fn_params f) (fn_tparams f) (expand (snd ip))))
+                         (filter (fun ip => negb (D strict (fn_params f) (expand (snd ip))))
                                  (combine (seq 0 (length (fn_paths f))) (fn_paths f)))) fs.
 
 (* ------------------------------------------------------------------ initial states *)
 (* a well-formed start: parameter i points to a live object and the function holds exactly one
    reference through it (the caller's); no other local holds anything *)
-Definition init_ok (params tparams : list var) (s : st) : bool :=
+Definition init_ok (params : list var) (s : st) : bool :=
   negb (has_leak s) &&
-  forallb (fun v => match lookup (venv s) v with
-                    | Some o => okind_eqb (kind_of s o) KTuple
-                    | None => false
-                    end) tparams &&
   forallb (fun p => Nat.ltb (snd p) (next s) && negb (mem (snd p) (freed s)) &&
                     match fst p with
-                    | HItem c => negb (mem c (freed s)) && Nat.ltb c (next s)
                     | HVar v => mem v params && Nat.eqb (own_count s v) 1 &&
                                 match lookup (venv s) v with Some o => Nat.eqb o (snd p) | None => false end
                     | _ => true
